@@ -106,7 +106,13 @@ def probe_sh_resume(inp):
     uninterrupted run (electronic amplitudes, time-derivative couplings and active surface included)"""
     sc = inp["sc"]
     a = mdh.surface_hopping_run(sc, stop_at=None, values=True)
-    b = mdh.surface_hopping_run(sc, stop_at=inp["stop_at"], values=True)
+    try:
+        b = mdh.surface_hopping_run(sc, stop_at=inp["stop_at"], values=True)
+    except RuntimeError as e:
+        # the uninterrupted run above succeeded: a stop-and-resume run that raises is a checkpoint that cannot be resumed
+        return {"ok": False, "observed": ["the run stopped after the checkpoint of step %d cannot be resumed: %s" % (inp["stop_at"], str(e).strip().splitlines()[-1][:160])],
+                "expected": "the checkpoint on disk is loadable and resuming from it finishes the planned number of steps", "predicate": "",
+                "fields": {"kinds": ["resume_raises"], "engine": sc.get("engine", "sh"), "datasets": []}}
     bad = []
     worst = {}
     for m in sc.get("molid", [0]):
@@ -125,7 +131,7 @@ def probe_sh_resume(inp):
                 bad.append(f"mol{m}: {name} differs by {d:.3e} (first differing row {first})")
                 worst[name] = d
     return {"ok": not bad, "observed": bad[:8], "expected": "resumed surface-hopping run = uninterrupted run, every dataset by value",
-            "predicate": "max |a - b| <= 1e-8 per dataset", "fields": {"kinds": ["sh_resume_values"] if bad else [], "engine": "sh", "datasets": sorted(worst)[:6]}}
+            "predicate": "max |a - b| <= 1e-8 per dataset", "fields": {"kinds": ["sh_resume_values"] if bad else [], "engine": sc.get("engine", "sh"), "datasets": sorted(worst)[:6]}}
 
 
 PROBES = {"crash_history": probe_history, "sh_resume": probe_sh_resume}
@@ -301,11 +307,14 @@ def run(ctx: Ctx):
         ck = [2, 3, 2][(j + ctx.seed) % 3]
         sh_cases.append({"sc": dict(mols=mols, molid=list(range(len(mols))), cad=dict(data=1, coordinates=1, velocities=1, forces=1, nonadiabatic=1, ckpt=ck), steps=ck + 3, dt=0.5, temp=300.0,
                                     n_states=2 + (j % 2), seed=int(ctx.rng.integers(1, 999))), "stop_at": ck})
+    # ... and the excited-state extended-Lagrangian engine XL_ESMD (its checkpoints could not be resumed at all before eb27277)
+    sh_cases.append({"sc": dict(engine="xlesmd", mols=[["ch2o"], ["h2o"]][ctx.seed % 2], molid=[0], cad=dict(data=1, coordinates=1, velocities=1, forces=1, ckpt=[4, 3][ctx.seed % 2]), steps=[8, 7][ctx.seed % 2],
+                                dt=0.2, temp=300.0, n_states=3, k=[6, 4][ctx.seed % 2], reuse_P=bool(ctx.seed % 2), seed=int(ctx.rng.integers(1, 999))), "stop_at": [4, 3][ctx.seed % 2]})
     for inp, r in zip(sh_cases, mdh.pmap(probe_sh_resume, sh_cases, timeout=1500)):
         if isinstance(r, Exception) or r is None:
             ctx.obligation("sh_resume harness", False, repr(r)[:800], kind="harness")
             continue
-        ctx.probe_case("sh_resume", inp, r["ok"], fields=r["fields"], observed=r["observed"], expected=r["expected"], predicate=r["predicate"], stratum="sh")
+        ctx.probe_case("sh_resume", inp, r["ok"], fields=r["fields"], observed=r["observed"], expected=r["expected"], predicate=r["predicate"], stratum=inp["sc"].get("engine", "sh"))
     effs = [r["effective"] for r in results if isinstance(r, dict)]
     ctx.extra["input_distribution"] = {
         "histories": len(cases),
